@@ -1134,3 +1134,94 @@ Proof.
   split; [apply req_run_status|].
   apply history_ok; [exact Hc|]. apply Forall_map. eapply Forall_impl; [|exact Ht]. intros [k t]; simpl; auto.
 Qed.
+
+(* ---------- a change of TYPE to token bucket installs a new bucket, whatever was there ---------- *)
+Lemma sync_entries_install name q b : forall spec m, NoDup (map fst spec) ->
+  alookup name spec = Some (STb q b) ->
+  (alookup name m = None \/ alookup name m = Some None) ->
+  alookup name (sync_entries m spec) = Some (Some (rtb_new q b)).
+Proof.
+  induction spec as [|[n sc] r IH]; intros m Hnd Hs Hm; [discriminate|].
+  simpl in Hnd. inversion Hnd as [|? ? Hn Hr]; subst. simpl in Hs. cbn [sync_entries].
+  destruct (String.eqb name n) eqn:E.
+  - apply String.eqb_eq in E. subst n. injection Hs as ->.
+    rewrite (sync_entries_other name r _ Hn). unfold sync_one. rewrite alookup_aset_same.
+    f_equal. unfold entry in *. destruct Hm as [Hm|Hm]; rewrite Hm; reflexivity.
+  - apply IH; [exact Hr|exact Hs|].
+    unfold sync_one. rewrite alookup_aset_other; [exact Hm|]. intros ->. rewrite String.eqb_refl in E. discriminate.
+Qed.
+
+(* the limiter the map holds for [name] is not a token bucket: absent (exempt default) or of another type *)
+Definition not_bucket (u : ulim) (name : string) : Prop :=
+  (forall q b, alookup name (uspec u) <> Some (STb q b)) /\
+  (alookup name (umap u) = None \/ alookup name (umap u) = Some None).
+
+Lemma type_change_holds u name spec q b : not_bucket u name -> NoDup (map fst spec) ->
+  alookup name spec = Some (STb q b) -> holds (usync u spec) name (rtb_new q b).
+Proof.
+  intros (Hprev & Hm) Hnd Hl. unfold usync. destruct (spec_eqb (uspec u) spec) eqn:E.
+  - exfalso. exact (Hprev q b (spec_eqb_lookup name q b _ _ E Hl)).
+  - split; cbn [umap uspec]; [|exact Hl].
+    rewrite fold_aremove_other.
+    + apply sync_entries_install; assumption.
+    + intros Hin. apply filter_In in Hin as (_ & Hf).
+      assert (str_mem name (map fst spec) = true) by (apply str_mem_In; exact (alookup_in name spec _ Hl)).
+      rewrite H in Hf. discriminate.
+Qed.
+
+Lemma windows_from_holds name u q b ops : holds u name (rtb_new q b) ->
+  cfg_std {| qps := q; burst := b |} -> Forall (usync_std name) ops ->
+  let tr := model_tr (rtb_new q b) (map (proj_op name) ops) in
+  urun u name ops = try_decisions tr /\
+  let segs := segments {| qps := q; burst := b |} [] tr in
+  all_segments closed_ok segs = true /\ all_segments open_ok segs = true /\ all_segments lower_ok segs = true.
+Proof.
+  intros Hh Hc Ho. cbn zeta. split.
+  - rewrite <- rtb_tries_model_tr. apply sync_by_name; [exact Hh|].
+    eapply Forall_impl; [|exact Ho]. intros [t|spec]; simpl; [auto|]. intros (H1 & q' & b' & H2 & _). split; eauto.
+  - apply history_ok; [exact Hc|]. apply Forall_map. eapply Forall_impl; [|exact Ho].
+    intros [t|spec]; simpl; [auto|]. intros (H1 & q' & b' & H2 & H3). rewrite H2. exact H3.
+Qed.
+
+(* C06_type_change_installs_bucket: for EVERY previous state of the limiter map in which [name] is not a token
+   bucket (absent, max-in-flight, exempt — any state of it), after a Sync that makes it tokenBucket(q, b) the
+   requests for it are decided by a NEW full bucket: all window bounds and the lower bound hold from the
+   reconfiguration on, across any later sibling-only re-syncs *)
+Lemma type_change_installs_bucket name u spec q b ops : not_bucket u name -> NoDup (map fst spec) ->
+  alookup name spec = Some (STb q b) -> cfg_std {| qps := q; burst := b |} -> Forall (usync_std name) ops ->
+  let tr := model_tr (rtb_new q b) (map (proj_op name) ops) in
+  urun (usync u spec) name ops = try_decisions tr /\
+  let segs := segments {| qps := q; burst := b |} [] tr in
+  all_segments closed_ok segs = true /\ all_segments open_ok segs = true /\ all_segments lower_ok segs = true.
+Proof.
+  intros Hnb Hnd Hl Hc Ho. apply windows_from_holds; [apply type_change_holds; assumption|exact Hc|exact Ho].
+Qed.
+
+(* [not_bucket] in reachable states: after any effective sync that gives [name] another type — whatever it was
+   before, in particular a token bucket in any state — the map holds a non-bucket limiter for it *)
+Lemma sync_entries_other_type name k : forall spec m, NoDup (map fst spec) ->
+  alookup name spec = Some (SOther k) -> alookup name (sync_entries m spec) = Some None.
+Proof.
+  induction spec as [|[n sc] r IH]; intros m Hnd Hs; [discriminate|].
+  simpl in Hnd. inversion Hnd as [|? ? Hn Hr]; subst. simpl in Hs. cbn [sync_entries].
+  destruct (String.eqb name n) eqn:E.
+  - apply String.eqb_eq in E. subst n. injection Hs as ->.
+    rewrite (sync_entries_other name r _ Hn). unfold sync_one. apply alookup_aset_same.
+  - apply IH; [exact Hr|exact Hs].
+Qed.
+
+Lemma sync_to_other_not_bucket u name spec k : NoDup (map fst spec) ->
+  spec_eqb (uspec u) spec = false -> alookup name spec = Some (SOther k) ->
+  not_bucket (usync u spec) name.
+Proof.
+  intros Hnd He Hl. unfold usync, not_bucket. rewrite He. cbn [uspec umap]. split.
+  - intros q b H. rewrite Hl in H. discriminate.
+  - right. rewrite fold_aremove_other.
+    + apply (sync_entries_other_type name k); assumption.
+    + intros Hin. apply filter_In in Hin as (_ & Hf).
+      assert (str_mem name (map fst spec) = true) by (apply str_mem_In; exact (alookup_in name spec _ Hl)).
+      rewrite H in Hf. discriminate.
+Qed.
+
+Lemma new_map_not_bucket name : not_bucket ulim_new name.
+Proof. split; [intros q b H; discriminate H|left; reflexivity]. Qed.
